@@ -977,6 +977,9 @@ SemModel generateSemModel(Rng &rng, const SemOptions &opt)
                 double rhs = 0.0;
                 for (int j = 0; j < n; ++j) {
                     double coef = i == j ? 4.0 + static_cast<double>(rng.range(0, 3)) : static_cast<double>(rng.range(-1, 1));
+                    if (opt.nlaDense && coef == 0.0) {
+                        coef = 1.0;
+                    }
                     if (coef == 0.0) {
                         continue;
                     }
@@ -995,6 +998,7 @@ SemModel generateSemModel(Rng &rng, const SemOptions &opt)
                 sys.equations.push_back(eq);
             }
             m.nla.push_back(sys);
+            m.nlaGuess = opt.nlaGuess;
         }
         // all definitions must be decidable at the initial point and at two more points
         bool good = true;
@@ -1089,7 +1093,7 @@ IrModel semToIr(const SemModel &m)
     addScaled("minute_like", "second", "", "60");
     for (int c = 0; c < m.ncomp; ++c) {
         IrComponent comp;
-        comp.name = "comp" + std::to_string(c);
+        comp.name = m.compName.size() == static_cast<size_t>(m.ncomp) ? m.compName[static_cast<size_t>(c)] : "comp" + std::to_string(c);
         comp.parent = m.compParent[static_cast<size_t>(c)];
         ir.comps.push_back(comp);
     }
@@ -1104,7 +1108,7 @@ IrModel semToIr(const SemModel &m)
             IrVariable v;
             v.name = q.inst[k].name;
             v.units = q.inst[k].units;
-            if (k == 0 && (q.kind == QKind::CONSTANT || q.kind == QKind::STATE || q.kind == QKind::NLA_UNKNOWN || q.kind == QKind::EXTERNAL)) {
+            if (k == 0 && (q.kind == QKind::CONSTANT || q.kind == QKind::STATE || (q.kind == QKind::NLA_UNKNOWN && m.nlaGuess) || q.kind == QKind::EXTERNAL)) {
                 if (q.kind == QKind::STATE && q.initByQuantity >= 0) {
                     const auto &c = m.q[static_cast<size_t>(q.initByQuantity)];
                     for (const auto &ci : c.inst) {
